@@ -121,7 +121,8 @@ Definition first_sym : bytes := s2b "_first".
 Definition first_rsrc (script : list fres) : rsrc :=
   mkRsrc (fun _ => Ok []) (fun _ _ => Ok []) (fun _ _ => Ok [])
          (fun sym => if bytes_eqb sym first_sym then Some script else None)
-         (fun sym => s2b "unknown function: " ++ sym).
+         (fun sym => s2b "unknown function: " ++ sym)
+         false.
 Definition first_code : bytes := encode (ILoad first_sym 0) ++ encode IHalt.
 
 (* runFirst: (engine, r, status) *)
@@ -271,8 +272,13 @@ Record response := mkResp {
 (* long-lived engine: Exec then Flush *)
 Definition request_long (fuel : nat) (rs : rsrc) (c : config) (e : engine) (input : bytes) : engine * response :=
   let '(e1, cont, s) := eng_exec fuel rs c e input in
-  let '(e2, out, f) := eng_flush fuel rs c e1 in
-  (e2, mkResp cont s out f).
+  match s with
+  | SPanic n => (e1, mkResp cont s [] (FPanic n))      (* the panic unwinds the caller: no Flush *)
+  | SFuel => (e1, mkResp cont s [] FFuel)
+  | _ =>
+    let '(e2, out, f) := eng_flush fuel rs c e1 in
+    (e2, mkResp cont s out f)
+  end.
 
 (* persisted operation: the store holds the session record; every request builds a new
    engine around it (ensurePersist writes the fresh record when none can be loaded), runs
@@ -287,6 +293,16 @@ Definition request_persisted (fuel : nat) (rs : rsrc) (c : config) (p : pworld) 
   let e := new_engine c (pw_store p) (pw_w p) (pw_log p) in
   let store0 := match pw_store p with Some s => Some s | None => Some (snap_of (v_st (e_v e)) (v_ca (e_v e))) end in
   let '(e1, cont, s) := eng_exec fuel rs c e input in
-  let '(e2, out, f) := eng_flush fuel rs c e1 in
-  let store1 := match eng_finish e2 with Some sn => Some sn | None => store0 end in
-  (mkPw store1 (v_w (e_v e2)) (v_log (e_v e2)) (pw_taint p || v_taint (e_v e2)), mkResp cont s out f).
+  match s with
+  | SPanic n => (mkPw store0 (v_w (e_v e1)) (v_log (e_v e1)) (pw_taint p || v_taint (e_v e1)), mkResp cont s [] (FPanic n))
+  | SFuel => (mkPw store0 (v_w (e_v e1)) (v_log (e_v e1)) (pw_taint p || v_taint (e_v e1)), mkResp cont s [] FFuel)
+  | _ =>
+    let '(e2, out, f) := eng_flush fuel rs c e1 in
+    match f with
+    | FPanic _ | FFuel =>   (* no Finish after a panic *)
+      (mkPw store0 (v_w (e_v e2)) (v_log (e_v e2)) (pw_taint p || v_taint (e_v e2)), mkResp cont s out f)
+    | _ =>
+      let store1 := match eng_finish e2 with Some sn => Some sn | None => store0 end in
+      (mkPw store1 (v_w (e_v e2)) (v_log (e_v e2)) (pw_taint p || v_taint (e_v e2)), mkResp cont s out f)
+    end
+  end.
